@@ -15,6 +15,8 @@ observed were deleted (the real compiler deletes unused trapping instructions in
 `why=release-wrong-aggregate-param` is printed only for the kinds `prog-aggsel` / `prog-f4` (programs the generator
 marks as containing a non-inlined function selecting among by-value aggregate parameters of one type) when the debug
 build is exactly the prescribed run and the release build has the prescribed status and payload sizes.
+`why=release-stale-self-update` likewise for the kinds `prog-selfupd` / `prog-f6` (programs that may re-assign an
+aggregate from a constructor reading the same variable, finding F6).
 `why=dyn-oob-no-revert` is printed only when the model prescribes a revert for an out-of-bounds dynamic array
 index and the implementation returned normally having logged exactly one more payload.
 -/
@@ -68,9 +70,10 @@ def answerProg (kind : String) (rest : List String) (itoks : List String) : Stri
       | some d, some r =>
         let (pd, ad, wd) := judge m d
         let (pr, ar, wr) := judge m r
-        let why := if wd || wr then " why=dyn-oob-no-revert" else
+        let why := if (wd || wr) && (pd || wd) && (pr || wr) then " why=dyn-oob-no-revert" else
           if pd && pr then "" else
           if (kind = "prog-aggsel" || kind = "prog-f4") && pd && ad && sameShape m r then " why=release-wrong-aggregate-param" else
+          if (kind = "prog-selfupd" || kind = "prog-f6") && pd && ad && sameShape m r then " why=release-stale-self-update" else
           if (pd || lenientMatch p d) && (pr || lenientMatch p r) then " why=dead-trap-eliminated" else
           if !pd && !pr then " why=both-differ" else if !pd then " why=debug-differs" else " why=release-differs"
         s!"{ms} agree={b01 (ad && ar)} prop={b01 (pd && pr)} skip=0 cls={cls} kind={kind} nlogs={sizeClass (outcomeLogs m).length}{why}"
